@@ -4,11 +4,13 @@ import common as C
 from props.c10 import safety_lit, table_lit
 
 ID = "C14"
-COQ_TARGETS = ["Exec/Collide.vo", "Properties/C14.vo"]
-THEOREMS = ["C14_offered_iff_spec", "C14_offsets_spec"]
+COQ_TARGETS = ["Exec/Collide.vo", "Gen/Forward.vo", "Properties/C14.vo"]
+THEOREMS = ["C14_offered_iff_spec", "C14_offsets_spec", "C14_candidate_changes_one_joint", "C14_skipped_links_unmoved"]
 LEVEL_TEXT = ("Coq theorem for every body configuration, safety table, oracle behaviour and scheduling choice: a single-joint candidate is "
               "offered iff it is within limits and the FULL brute-force pair check of that candidate is clean, given only that pairs of two "
-              "unmoved bodies are clean (they are as in the collision-free start); the offers are exactly the offered ones among the twelve")
+              "unmoved bodies are clean (they are as in the collision-free start); the offers are exactly the offered ones among the twelve; candidate cand replaces joint cand/2 by the caller's from/to value and "
+              "nothing else; every body on its skip list has, in the link poses generated from forward_with_joint_poses, the pose of the initial "
+              "configuration (which is what makes skipping pairs of unmoved bodies sound)")
 LEVEL_NOTE = ("same model and oracle tables as C10 with the skip set of joints before the moved one; tie: vm_compute of the Q instance on "
               "per-candidate parry3d tables vs non_colliding_offsets on scenes with a fake chain kinematics in which joint k moves links >= k, "
               "rayon pools {1,16}")
